@@ -320,7 +320,9 @@ class _RawConfigParser(configparser.RawConfigParser):
     self._sections = collections.OrderedDict()
 
   def optionxform(self, option):
-    option = option.strip()
+    # Same normalisation as _ConfigParserDict so that duplicate detection and
+    # has_option() see the key that is actually stored
+    option = option.strip().replace(' ', '').replace('\t', '')
     return option
 
 class ConfigParser(object):
